@@ -363,6 +363,20 @@ CLAIMED = {
             'C02\'s clause; frexp/ldexp are CPython\'s.',
             'Gradual underflow (denormals) is outside what to_float documents and is not decided.',
             'DESIGN.md section 10 (C09)'),
+    'C08': ('W-printing',
+            'static analysis: evaluation of the digit-count formulas from their syntax tree over all precisions '
+            '1..20000 against the uniqueness bound, freshness/wiring rules for the digit counts used by repr/str, '
+            'writer/reader agreement of the special-value literals, shape rule for the decimal rounding and carry '
+            'step of to_str',
+            'Clause (necessary conditions of the round trip): repr prints at least ceil(p*log10 2)+1 digits at '
+            'every precision p (found and repaired: 17 digits at 54 bits, where repr did not round-trip); the '
+            'digit counts are recomputed from the current precision on every use and passed to to_str; complex '
+            'repr is composed of the part reprs in order; to_str writes +inf/-inf/nan and from_str\'s table reads '
+            'exactly these back; to_str requests guard digits, rounds on the first dropped digit (5..9 up), '
+            'propagates the carry through 9s and bumps the exponent in the all-nines case.  Digit generation '
+            '(to_digits_exp) and nearest-decimal correctness as values are NOT decided.',
+            'Trusts the small formula evaluator (int/float arithmetic as in CPython).',
+            'DESIGN.md section 10 (C08)'),
 }
 
 NA_REASONS = {
